@@ -58,17 +58,18 @@ func vHnswVals(dim, which int) [][]float32 {
 }
 
 type vHnswSys struct {
-	c      *vCtx
-	cfg    vHnswCfg
-	cfgS   string
-	vals   [][]float32
-	idx    *HNSWIndex
-	m      *vVecModel
-	nAdd   int
-	nRem   int
-	nFl    int
-	nLvl   int
-	nReadd int
+	c       *vCtx
+	cfg     vHnswCfg
+	cfgS    string
+	vals    [][]float32
+	idx     *HNSWIndex
+	m       *vVecModel
+	nAdd    int
+	nRem    int
+	nFl     int
+	nLvl    int
+	nReadd  int
+	queries [][]float32 // override of the query alphabet (sweeps)
 	// resident = vectors held by the graph (incl. soft-deleted); maxRes = its maximum
 	// since the index was last empty or flushed
 	resident       int
@@ -326,6 +327,50 @@ func (s *vHnswSys) why(id uint32, reach map[uint32]bool) string {
 	return "pruned-back-edges"
 }
 
+// vC12Sweep: realistic M (16, 32): for every n in 1..2M+3 structured vectors are inserted
+// with a fixed level pattern, every fourth removed, flush; judged after every phase
+// (exactness holds up to 2M resident vectors because ef >= 2M+3).
+func vC12Sweep(c *vCtx, metric DistanceKind, m int) {
+	maxN := 2*m + 3
+	for n := 1; n <= maxN; n++ {
+		if c.Expired() {
+			c.Bound = fmt.Sprintf("sweep sizes 1..%d", n-1)
+			return
+		}
+		cfg := vHnswCfg{Metric: metric, Dim: 3, M: m, Ef: 2*m + 6, MaxN: maxN + 2, MaxRem: maxN, MaxFl: 3, MaxLvl: maxN, Vals: 9}
+		s := &vHnswSys{c: c, cfg: cfg, cfgS: cfg.String() + fmt.Sprintf(" sweep n=%d", n), vals: vStructuredVecs(3, n+1)}
+		s.queries = [][]float32{s.vals[0], s.vals[n/2], {0.5, 0.5, 0.5}, {-40, 3, 1}}
+		s.Reset()
+		var hist []vOp
+		ap := func(op vOp, check bool) {
+			s.Apply(op, hist, check)
+			hist = append(hist, op)
+			c.Transitions++
+		}
+		for i := 0; i < n; i++ {
+			lvl := 0
+			if i%6 == 5 {
+				lvl = 1
+			}
+			if i%17 == 16 {
+				lvl = 2
+			}
+			ap(vOp{K: "Add", A: i + 1, B: i, C: lvl}, i == n-1)
+		}
+		for i := 0; i < n; i += 4 {
+			ap(vOp{K: "Remove", A: i + 1}, i+4 >= n)
+		}
+		if s.idx.deletedNodes.GetCardinality() > 0 && len(s.m.live) > 0 {
+			ap(vOp{K: "Flush"}, true)
+		}
+		ap(vOp{K: "Add", A: n + 1, B: n, C: 0}, true)
+		c.Traces++
+		c.NewState(s.cfgS)
+	}
+	c.Sample(fmt.Sprintf("M=%d ef=%d: n structured vectors with levels 0/1/2, every fourth removed (incl. the entry point), flush, one more add; every n in 1..%d", m, 2*m+6, maxN))
+	c.Bound = fmt.Sprintf("sweep sizes 1..%d", maxN)
+}
+
 func (s *vHnswSys) observe(h []string) {
 	mkey := s.m.key()
 	// (c) structural invariant
@@ -351,8 +396,11 @@ func (s *vHnswSys) observe(h []string) {
 		s.c.Nontrivial(s.cfgS + "|reach|" + mkey + fmt.Sprint(s.idx.entryPoint))
 	}
 	// (a) non-emptiness, (b) exactness
-	qs := vHnswVals(s.cfg.Dim, s.cfg.Vals)
-	qs = append(append([][]float32{}, qs...), vQueryAlphabet(s.cfg.Dim)[1])
+	qs := s.queries
+	if qs == nil {
+		qs = vHnswVals(s.cfg.Dim, s.cfg.Vals)
+		qs = append(append([][]float32{}, qs...), vQueryAlphabet(s.cfg.Dim)[1])
+	}
 	small := s.maxRes <= 2*s.cfg.M && s.cfg.Ef >= s.maxRes
 	for qi, q := range qs {
 		if s.cfg.Metric == Cosine && vIsZero(q) {
@@ -513,9 +561,24 @@ func init() {
 					vBFS(c, &vHnswSys{c: c, cfg: cfg, cfgS: cfg.String(), vals: vHnswVals(cfg.Dim, cfg.Vals)}, depth)
 				}})
 			}
+			for _, m := range []int{16, 32} {
+				for _, metric := range []DistanceKind{Euclidean, Cosine} {
+					m, metric := m, metric
+					if m == 32 && metric == Cosine && tier != "thorough" {
+						continue
+					}
+					sh = append(sh, vShard{Name: fmt.Sprintf("sweep/%s/M%d", metric, m), Run: func(c *vCtx) { vC12Sweep(c, metric, m) }})
+				}
+			}
 			return sh
 		},
 		Replay: func(c *vCtx, v *vViolation) bool {
+			if strings.Contains(v.Config, " sweep n=") {
+				cfg := vParseHnswCfg(v.Config)
+				vC12Sweep(c, cfg.Metric, cfg.M)
+				_, ok := c.viol[v.Sig()]
+				return ok
+			}
 			cfg := vParseHnswCfg(v.Config)
 			vReplayHist(&vHnswSys{c: c, cfg: cfg, cfgS: v.Config, vals: vHnswVals(cfg.Dim, cfg.Vals)}, v.History)
 			_, ok := c.viol[v.Sig()]
